@@ -19,6 +19,9 @@ CHECKS = {
     "C15": {"harnesses": [("harness.events", "C15_LimitRuleFn"), ("harness.events", "C15_LimitRuleRun")]},
     "C16": {"harnesses": [("harness.events", "C16_HaltTiming")]},
     "C17": {"harnesses": [("harness.functions", "C17_IndexValues"), ("harness.functions", "C17_IndexInRun")]},
+    "C18": {"harnesses": [("harness.config", "C18_JsonExtends"), ("harness.config", "C18_Expansion"),
+                          ("harness.config", "C18_RandomValues"), ("harness.config", "C18_LegacyKeys"),
+                          ("harness.config", "C18_ClassLookup")]},
     "C19": {"harnesses": [("harness.functions", "C19_TickRounding")]},
     "C08": {"harnesses": [("harness.ophistory", "C08_OpHistory")]},
     "C03": {"harnesses": [("harness.matching", "C03_ClearingRound"), ("harness.matching", "C03_Continuous")]},
@@ -39,6 +42,5 @@ NOT_APPLICABLE = {
     "C06": "harness not built yet in this revision (planned: RN clock/series monitor)",
     "C07": "harness not built yet in this revision (planned: two-run comparison under nondeterministic global sources)",
     "C12": "harness not built yet in this revision",
-    "C18": "harness not built yet in this revision",
     "C20": "harness not built yet in this revision",
 }
